@@ -94,6 +94,9 @@ class CallGraph:
                     tr = self.crate.resolve(fn.module, segs)
                     if tr[0] == 'crate' and (tr[1][:-1], tr[1][-1]) in self.crate.types:
                         return tr[1]
+                elif d.ty is None and d.kind == 'let' and d.init is not None and strip_refs(d.init)['k'] == 'Struct' and not d.assigns:
+                    # `let b = Builder { .. }; b.method(..)`
+                    return self.recv_type(fw, d.init, scope)
                 elif d.ty is not None:
                     t = d.ty
                     while t['k'] == 'Ref':
